@@ -49,6 +49,27 @@ Fixpoint str_end (s : bytes) : option nat :=
       else option_map S (str_end r)
   end.
 
+(* the same search written without the shortcut (Proofs/Lexer_proofs.v: str_end_is_backtracking shows
+   the two agree on every input; this one is exponential on inputs full of backslashes, like
+   Python's own matcher) *)
+Fixpoint str_end_bt (s : bytes) : option nat :=
+  match s with
+  | [] => None
+  | c :: r =>
+      if byte_eqb c c_quote then Some 0
+      else if byte_eqb c c_bslash then
+        match r with
+        | d :: r' =>
+            if byte_eqb d c_lf then option_map S (str_end_bt r)
+            else match str_end_bt r' with
+                 | Some k => Some (S (S k))
+                 | None => option_map S (str_end_bt r)
+                 end
+        | [] => None
+        end
+      else option_map S (str_end_bt r)
+  end.
+
 (* rest of the input after a line comment (the newline that ends it is an ignored character and is
    dropped here as well) *)
 Fixpoint drop_line (s : bytes) : bytes :=
